@@ -20,9 +20,14 @@ TARGETS = [
         (r'base_buffer\.addr\(\)', 'buffer_addr(base_buffer)', 1), (r'base_buffer\.size\(\)', 'buffer_size(base_buffer)', 0),
         fields_rule(['offset', 'length'], min_fires=2)]),
     Target('des_buffer', S, r'void process_field\(buffer& x\)', index=2, count=3, rules=[
-        (r'x\.size\(\)', 'buffer_size(x)', 2), (r'x\._ptr', 'x->_ptr', 2),
+        (r'x\.size\(\)', 'buffer_size(x)', 2), (r'x\._ptr', 'x->_ptr', 2), (r'x\._len', 'x->_len', 0),
         (r'_iov->extract_front_continuous\(', 'IOV_extract_front_continuous(this->_iov, ', 1),
         fields_rule(['failed'])]),
+    Target('des_array', S, r'void process_field\(array<T>& x\)', rules=[
+        (r'd\(\)->process_field\(\(buffer&\)x\);', 'DES_process_field_buffer(this, x); void *P0_ = x->_ptr; size_t L0_ = x->_len;', 1),
+        (r'for \(auto& i: x\)\s*d\(\)->process_field\(i\);',
+         '{ struct buffer *it_ = arrayS_begin(x); struct buffer *e_ = it_ + arrayS_size(x); for (; it_ != e_; it_++) { struct buffer *i = it_; DES_process_elem(this, i); } }', 1)],
+        marks={'count': 1, 0: dict(name='ARR', frame=['it_', 'N_ELEM'], effects={'DES_process_elem': ['N_ELEM']}, pure=[])}),
     Target('ser_buffer', S, r'void process_field\(buffer& x\)', index=1, count=3, rules=[
         (r'iov\.back_free_iovcnt\(\)', 'IOV_back_free_iovcnt(this)', 1), (r'iov\.push_back\(', 'IOV_push_back(this, ', 1),
         (r'x\.size\(\)', 'buffer_size(x)', 2), (r'x\.addr\(\)', 'buffer_addr(x)', 1), fields_rule(['iovfull'])]),
@@ -39,6 +44,7 @@ PROOFS = [
     Proof('slice_anchor/in_bounds', 'ser.c', 'h_anchor', kind='L', min_obligations=2),
     Proof('accessors', 'ser.c', 'h_accessors', kind='L', min_obligations=4, checks=CHECKS),
     Proof('deserializer/buffer', 'ser.c', 'h_des_buffer', kind='L', min_obligations=3),
+    Proof('deserializer/array', 'ser.c', 'h_des_array', kind='L', min_obligations=3, checks=CHECKS, backend='cadical'),
     Proof('serializer/buffer', 'ser.c', 'h_ser_buffer', kind='L', min_obligations=3),
     Proof('checked_message', 'ser.c', 'h_checksum', kind='L', min_obligations=1),
 ]
